@@ -205,8 +205,9 @@ def mk_probes(tier, only=None, seed=0):
                         continue
                     if not full and not (is_fp(t1) and is_fp(t2)) and op in ("-", "*"):
                         continue
-                    if not full and ULONG in (t1, t2):
-                        continue      # u64<->fp is decided in conv/*; composed with an FP operator it needs the thorough budget
+                    if ULONG in (t1, t2) and not (is_fp(t1) and is_fp(t2)):
+                        continue      # u64<->fp is decided in conv/*; composed with an FP operator the query (branchy conversion
+                                      # under an FP adder/multiplier) does not finish within 200 s even in the thorough tier: outside
                     rt = fp_common(t1, t2)
                     ref = (lambda op, t1, t2: lambda a, b: ref_bin(op, a, t1, b, t2)[0::2])(op, t1, t2)
                     P.append(e2.ScalarProbe("arith/%s/%s/%s" % (OPN[op], t1.cid, t2.cid), fn(), rt, [t1, t2], "return a %s b;" % op, ref, timeout_ms=TMO))
@@ -340,7 +341,7 @@ def main(tier, only=None):
                    "arithmetic + - * / and six comparisons: floating x floating pairs, plus integer x floating %s" % ("all pairs" if tier == "thorough" else "(subset of operators/types in quick)"),
                    "floating constants: a fixed boundary list of %d spellings x {none,f,L} suffix plus solver-found double-rounding witnesses" % len(LITS)]
     chk.outside += ["decimal->binary conversion of arbitrary literal text (libc strtold is not encoded): only the listed spellings",
-                    "x87 precision-control settings other than the ABI default (extended)", "NaN payloads and NaN sign (C11 leaves them unspecified)",
+                    "x87 precision-control settings other than the ABI default (extended)", "unsigned long operands directly under a floating + - * / (the conversion itself is decided in conv/*)", "NaN payloads and NaN sign (C11 leaves them unspecified)",
                     "pseudo-denormal / unnormal x87 encodings as inputs (assumed canonical)"]
     chk.assumptions += ["ABI entry state: x87 control word 0x037F (round-to-nearest, extended precision), MXCSR default (round-to-nearest)",
                         "long double memory operands are canonical x87 encodings"]
